@@ -131,6 +131,7 @@ package bt
 //@   requires (forall ((k Int)) (=> (and (<= 0 k) (< k (len (. tx Outputs)))) (not (nil? (at (. tx Outputs) k)))))
 //@   loop 0 invariant (and (not (nil? clone)) (fresh clone) (= (len (. clone Inputs)) (+ rangeindex 1)) (or (nil? (. clone Inputs)) (fresh (. clone Inputs))))
 //@   loop 0 invariant (forall ((k Int)) (=> (and (<= 0 k) (< k (len (. clone Inputs)))) (and (not (nil? (at (. clone Inputs) k))) (fresh (at (. clone Inputs) k)))))
+//@   loop 0 invariant (forall ((k Int)) (=> (and (<= 0 k) (< k (len (. tx Inputs)))) (and (= (at (. tx Inputs) k) (old (at (. tx Inputs) k))) (= (. (at (. tx Inputs) k) PreviousTxScript) (old (. (at (. tx Inputs) k) PreviousTxScript))) (= (. (at (. tx Inputs) k) PreviousTxSatoshis) (old (. (at (. tx Inputs) k) PreviousTxSatoshis))))))
 //@   loop 0 invariant (forall ((k Int)) (=> (and (<= 0 k) (< k (len (. clone Inputs)))) (allocated (at (. clone Inputs) k))))
 //@   loop 1 invariant (forall ((k Int)) (=> (and (<= 0 k) (< k (len (. clone Inputs)))) (allocated (at (. clone Inputs) k))))
 //@   loop 1 invariant (forall ((k Int)) (=> (and (<= 0 k) (< k (len (. clone Outputs)))) (allocated (at (. clone Outputs) k))))
